@@ -307,6 +307,15 @@ DropStream(s, e, h) ==
   IF h \notin DOMAIN s.hnd[e] \/ s.hnd[e][h].st # "app" THEN {}
   ELSE {Obs(DropHandle(s, e, h), [NoObs EXCEPT !.res = "ok"])}
 
+(* the application drops the future of a pending new_stream_channel / request_bind (a timeout, a select!): the
+   call record stays, marked cancelled, so that the slot's incarnation is still known; a stream already sitting in
+   the call's oneshot is dropped with it *)
+CancelCall(s, e, c) ==
+  IF ~HasCall(s, e, c) \/ s.calls[e][c].resp = "cancelled" THEN {}
+  ELSE LET k  == s.calls[e][c]
+           s1 == [s EXCEPT !.calls[e][c].resp = "cancelled"]
+       IN {Obs(IF k.k = "open" /\ k.resp = "some" THEN DropHandle(s1, e, k.h) ELSE s1, [NoObs EXCEPT !.res = "ok"])}
+
 (* the BindRequest object r of endpoint e answers (reply) or is dropped (= reject, unless already answered) *)
 BindReply(s, e, r, accept) ==
   IF r \notin DOMAIN s.breq[e] \/ ~s.breq[e][r].open THEN {}
